@@ -373,8 +373,9 @@ pub fn generate(seed: u64, k_seeds: usize) -> Sc {
                     if r.chance(1, 2) {
                         row[C_COMM] = cents_str(r.range(0, 999));
                     }
-                    if r.chance(1, 40) {
-                        row[C_SFL] = format!("-{}!", cents_str(r.range(1, 5000)));
+                    if r.chance(1, 30) {
+                        // a declared superficial loss: forced ("!"), or not (then it must match the computed one)
+                        row[C_SFL] = format!("-{}{}", cents_str(r.range(1, 5000)), if r.chance(2, 3) { "!" } else { "" });
                     }
                     st.get_mut(a).unwrap().shares = (have - qty).max(0);
                     set_aff(&mut row, a, &mut r);
@@ -427,7 +428,8 @@ pub fn generate(seed: u64, k_seeds: usize) -> Sc {
                 }
                 _ => {
                     // manual SfLA
-                    let nonreg: Vec<&str> = holders.iter().copied().filter(|a| !a.contains("(R)")).collect();
+                    // (rarely on a registered affiliate: an error)
+                    let nonreg: Vec<&str> = holders.iter().copied().filter(|a| !a.contains("(R)") || r.chance(1, 20)).collect();
                     if nonreg.is_empty() {
                         continue;
                     }
@@ -532,6 +534,18 @@ pub fn generate(seed: u64, k_seeds: usize) -> Sc {
             0 => symbol_base.push(format!("{}:{}:{}", sym, r.range(1, 40), cents_str(r.range(500, 90000)))),
             1 => symbol_base[0] = format!(" {}", first),
             _ => symbol_base.push("NOPE:3:30.00".to_string()),
+        }
+    }
+    // One input in forty carries a malformed cell or two (the run stops with a diagnostic).
+    if r.chance(1, 40) && !all_rows.is_empty() {
+        for _ in 0..r.range(1, 2) {
+            let i = r.below(all_rows.len() as u64) as usize;
+            match r.below(4) {
+                0 => all_rows[i].1[C_SHARES] = "abc".to_string(),
+                1 => all_rows[i].1[C_ACTION] = "Exchange".to_string(),
+                2 => all_rows[i].1[C_TRADE] = "2020-13-45".to_string(),
+                _ => all_rows[i].1[C_AMT] = "-5".to_string(),
+            }
         }
     }
     // A fifth of the inputs write some share counts with trailing zeros ("10.0", "2.50"): the same
